@@ -124,7 +124,10 @@ def Simplex.maxUncertainty (s : Simplex α n) (a : Tab α n) : α :=
 def Simplex.uncertaintyMaximized (s : Simplex α n) (a : Tab α n) : Simplex α n :=
   let p := s.projection a
   let um := s.maxUncertainty a
-  Simplex.normalized (Vector.ofFn fun i => p[i] - a[i] * um) um
+  let bmax : Tab α n := Vector.ofFn fun i =>
+    let b := p[i] - a[i] * um
+    if Scalar.lt b Scalar.zero then Scalar.zero else b
+  Simplex.normalized bmax um
 
 /-- `Discount for Simplex` -/
 def Simplex.discount (s : Simplex α n) (t : α) : Simplex α n :=
